@@ -1,6 +1,6 @@
 """C02 - path navigation returns exactly the elements of the resource's FHIR JSON tree."""
 import copy
-from lib import driver as D, machine as M
+from lib import driver as D, machine as M, nodetrace as NT
 
 MUTANTS = ["firstChildOnly", "reverseOrder", "noFlatten"]
 
@@ -37,6 +37,8 @@ def run(ctx):
     ctx.extra["resources"] = ntrees
     # programs of the whole abstract machine whose last step is one of this property's operations (lib/machine.py)
     verdicts = M.extend(ctx, verdicts, by_id)
+    # node-level trace validation (spec/FPNodeTrace.tla): in every sequence a.b.c each node's input is its predecessor's output
+    verdicts = NT.extend(ctx, verdicts, by_id)
     return D.finish(ctx, verdicts, by_id, evaluations=len(obs),
                     rule="resources: MR1-3 plus schema-driven fully populated instances (quick: 27 types rotating with the seed + 6 randomly "
                          "thinned; thorough: all 146 types x 2 instances + 60 thinned); cases: TLC walks every name path of every tree and emits "
